@@ -21,13 +21,16 @@ SessOf(list) == [s \in Sids |->
 CsOf(c) == [reg |-> c.reg, used |-> c.used, sess |-> SessOf(c.sess)]
 \* sessions with ids outside Sids would be invisible to the invariants: refuse such traces
 Covered(c) == \A i \in 1..Len(c.sess) : c.sess[i].sid \in Sids
-ReqOf(r) == [nil |-> r.nil, provok |-> r.provok, specok |-> r.specok, lavaok |-> r.lavaok, epochok |-> r.epochok,
-             hashok |-> r.hashok, who |-> r.who, pairing |-> r.pairing, parseok |-> r.parseok, seenok |-> r.seenok,
+\* the reward-server mock logs consumer / session / CuSum / epoch of every proof it is handed
+ProofSet(r, ep) == {[c |-> r.proofs[i].c, ep |-> r.proofs[i].ep, sid |-> r.proofs[i].sid, cu |-> r.proofs[i].cu] : i \in 1..Len(r.proofs)}
+ReqOf(r) == [nil |-> r.nil, provok |-> r.provok, specok |-> r.specok, lavaok |-> r.lavaok, ep |-> r.ep, epochok |-> r.epochok,
+             hashok |-> r.hashok, who |-> r.who, pairing |-> [e \in VEpochs |-> r.pairby[e]], parseok |-> r.parseok, seenok |-> r.seenok,
              addonok |-> r.addonok, sid |-> r.reqsid, cusum |-> r.cusum, relaynum |-> r.relaynum]
 
 TInit == Init /\ l = 1 /\ Trace[1].ev = "reset"
-Logged(r) == /\ Covered(r.A) /\ Covered(r.B) /\ Covered(r.X)
-             /\ cons' = [c \in Known |-> IF c = "A" THEN CsOf(r.A) ELSE CsOf(r.B)]
+Logged(r) == /\ \A e \in VEpochs, c \in Known : Covered(r.st[e][c])
+             /\ Covered(r.X)
+             /\ cons' = [e \in VEpochs |-> [c \in Known |-> CsOf(r.st[e][c])]]
 TReset == LET r == Trace[l + 1] IN
           /\ r.ev = "reset" /\ Logged(r) /\ out' = NoOut /\ nops' = 0 /\ hist' = <<>>
 TEnd == LET r == Trace[l + 1] IN
@@ -37,14 +40,17 @@ TRelay == LET r == Trace[l + 1] IN
           /\ r.ev = "relay" /\ ~r.panic /\ Logged(r) /\ nops' = nops + 1 /\ hist' = hist
           /\ r.nil \/ r.reqsid \in Sids
           /\ Covered(r.Xpre)
+          /\ (r.epochok <=> r.ep \in VEpochs)
           /\ out' = [ev |-> "relay", req |-> ReqOf(r), served |-> r.served, why |-> "", pre |-> cons, xpre |-> CsOf(r.Xpre),
-                     x |-> CsOf(r.X), proofs |-> ToSet(r.proofs)]
+                     x |-> CsOf(r.X), asked |-> ToSet(r.asked), proofs |-> ProofSet(r, r.ep)]
           /\ Conf => LET q == ReqOf(r)
-                         h == Handle(IF q.who \in Known THEN cons[q.who] ELSE CsOf(r.Xpre), q)
+                         known == q.who \in Known /\ q.ep \in VEpochs
+                         h == Handle(IF known THEN cons[q.ep][q.who] ELSE CsOf(r.Xpre), q)
                      IN /\ h.served = r.served
-                        /\ (q.who \in Known => cons'[q.who] = h.cs)
-                        /\ (q.who \notin Known => CsOf(r.X) = h.cs)
-                        /\ ToSet(r.proofs) = h.proofs
+                        /\ (known => cons'[q.ep][q.who] = h.cs)
+                        /\ (~known => CsOf(r.X) = h.cs)
+                        /\ ToSet(r.asked) = h.asked
+                        /\ ProofSet(r, r.ep) = h.proofs
 TNext == /\ l < Len(Trace) /\ l' = l + 1
          /\ (TReset \/ TEnd \/ TRelay)
 TSpec == TInit /\ [][TNext]_tvars
